@@ -282,6 +282,46 @@ theorem unsafe_century_depends_on_import_clock :
     ∧ (stepUnsafe { init with importClock := 1999 } (.gpsDate 29 2 24)).2.1 = .nat 19240229
     ∧ (stepUnsafe { init with importClock := 2101 } (.gpsDate 29 2 0)).2.1 = .err "ValueError" := by decide +kernel
 
+/-! ## element Enums: what a member hands out is the caller's (round 4)
+
+The members of an Enum are created once, when the module is imported, and live as long as the process: anything a member
+keeps is hidden state shared by every later call.  In the code as it is `as_bits` builds a new bit array from the member's value
+on every call (`int2ba(self.value, length=…)`), so nothing the caller does to a returned buffer can reach a later call. -/
+
+/-- **element_bits_stateless.** In EVERY state (no invariant needed) the call answers the table value of that member, changes
+nothing and keeps nothing: the result does not depend on the history, in particular not on what callers did with the buffers
+earlier calls handed out. -/
+theorem element_bits_stateless (s : S) (cls : String) (i : Nat) :
+    (step s (.elementBits cls i)).2.1 = pureOut (.elementBits cls i) ∧ (step s (.elementBits cls i)).1 = s
+      ∧ (step s (.elementBits cls i)).2.2 = .elementBits cls i := ⟨rfl, rfl, rfl⟩
+
+/-- per class: every member that serialises does so to the same width, and no two members to the same bits (a corrupted
+stored pattern would collide with, or differ in width from, nothing it should) -/
+def elementTableOk : Bool :=
+  Gen.PurityInit.elementBits.all (fun e =>
+    let ok := (e.2.filter (fun m => m.1 == "")).map (·.2)
+    (match ok with | [] => true | b :: _ => ok.all (fun x => x.length == b.length)) && ok.eraseDups.length == ok.length)
+
+theorem element_table_ok : elementTableOk = true := by decide +kernel
+
+/-- pinned (ETSI TS 102 361-1 table 9.2): the BS sourced data SYNC pattern is `DFF57D75DF5D`; the embedded-signalling
+pseudo-member (-1) has no bits: `as_bits` raises -/
+example : pureOut (.elementBits "sync_patterns.SyncPatterns" 1) = .bits (natToBits 48 0xDFF57D75DF5D)
+    ∧ pureOut (.elementBits "sync_patterns.SyncPatterns" 0) = .bits (natToBits 48 0x755FD7DF75F7)
+    ∧ (match pureOut (.elementBits "sync_patterns.SyncPatterns" 10) with | .err _ => true | _ => false) = true
+    ∧ pureOut (.elementBits "sync_patterns.SyncPatterns" 11) = .err "no-such-member" := by decide +kernel
+
+/-! ### teeth: members that keep the buffer they hand out (`stepStored`, not code that ever existed) -/
+
+/-- the caller inverted the 48 bits it was handed for member 1; with stored buffers that is what the member holds now -/
+def scribbledStore : String → Nat → Option Bits :=
+  fun cls i => if cls == "sync_patterns.SyncPatterns" && i == 1 then some ((natToBits 48 0xDFF57D75DF5D).map not) else none
+
+theorem stored_pattern_history_dependent :
+    (stepStored scribbledStore init (.elementBits "sync_patterns.SyncPatterns" 1)).2.1 ≠ pureOut (.elementBits "sync_patterns.SyncPatterns" 1)
+    ∧ (stepStored (fun _ _ => none) init (.elementBits "sync_patterns.SyncPatterns" 1)).2.1 = pureOut (.elementBits "sync_patterns.SyncPatterns" 1) := by
+  decide +kernel
+
 /-! ## the inventory of hidden state equals the reviewed list
 
 `Gen.hiddenState` is regenerated from the source on every run (`tools/scan_state.py`).  The list below was
@@ -466,12 +506,24 @@ def reviewed : List (String × String × String × String) := [
   ("okdmr/dmrlib/motorola/lrrp.py", "LRRP", "class-mutable", "COMMON_ELEMENT_TOKENS: dict"),
   ("okdmr/dmrlib/motorola/lrrp.py", "LRRP", "class-mutable", "LRRP_CONSTANT_TABLE: dict"),
   ("okdmr/dmrlib/motorola/lrrp.py", "LRRP", "class-mutable", "QUERY_REQUEST_MESSAGES_ELEMENT_TOKENS: dict"),
+  -- hands out the class-level attribute table itself (inside a fresh list): the library's own callers only read it (get_attribute copies the definition it returns); the table is in the model state (`lrrpAttributes`, invariant `Inv`) and in the run-time probe, a write through it by the library would break both.  A CALLER that edits the table it was handed edits library state: out of the property (no library call), noted as a residual risk
+  ("okdmr/dmrlib/motorola/lrrp.py", "LRRP.get_known_attributes", "returns-shared", "cls.ATTRIBUTE_TOKENS"),
+  -- as above: the three class-level element-token tables are handed out inside a fresh list; read-only use by get_token / from_bytes (get_token copies the definition and, since d571898, its attribute list); tables are model state (`lrrpAnswerTokens`) and probed
+  ("okdmr/dmrlib/motorola/lrrp.py", "LRRP.get_known_tokens", "returns-shared", "cls.ANSWER_AND_REPORT_MESSAGES_ELEMENT_TOKENS"),
+  -- as above (`lrrpRequestTokens` / `lrrpAnswerTokens` both start with the common table)
+  ("okdmr/dmrlib/motorola/lrrp.py", "LRRP.get_known_tokens", "returns-shared", "cls.COMMON_ELEMENT_TOKENS"),
+  -- as above (`lrrpRequestTokens`)
+  ("okdmr/dmrlib/motorola/lrrp.py", "LRRP.get_known_tokens", "returns-shared", "cls.QUERY_REQUEST_MESSAGES_ELEMENT_TOKENS"),
   -- class flag DEBUG: printing only, reset at the start of every from_bytes: in `S`, unconstrained, read by nothing modelled (was listed as self-mutation of `cls` before the scanner told class methods apart)
   ("okdmr/dmrlib/motorola/mbxml.py", "MBXML.from_bytes", "shared-mutation", "cls: cls.DEBUG ="),
   ("okdmr/dmrlib/motorola/mbxml.py", "MBXML.write_infotime", "ambient-read", "datetime.datetime"),
   ("okdmr/dmrlib/motorola/mbxml.py", "MBXML.write_infotime", "ambient-read", "datetime.datetime.strptime"),
+  -- over-approximation of the scanner (taint flows through `copy`): what is returned is a SHALLOW COPY of the attribute definition whose fields are scalars (name, token id, value): nothing of the table is reachable for writing through it; entry point lrrp.get_attribute is run with its result held and overwritten
+  ("okdmr/dmrlib/motorola/mbxml.py", "MBXMLDocument.get_attribute", "returns-shared", "cls.get_known_attributes()"),
   -- writes to a shallow copy of the definition (token_id, value are rebinding of scalars): no shared write
   ("okdmr/dmrlib/motorola/mbxml.py", "MBXMLDocument.get_attribute", "shared-mutation", "cls.get_known_attributes(): a.token_id =; a.value ="),
+  -- over-approximation (taint through `copy`): the returned token is a shallow copy whose only mutable field, the attribute list, is re-created since d571898 (`t.attributes = list(t.attributes)`); modelled (`getTokenAux`); entry points lrrp.get_token / get_token_twice hold the result and compare later calls
+  ("okdmr/dmrlib/motorola/mbxml.py", "MBXMLDocument.get_token", "returns-shared", "cls.get_known_tokens()"),
   -- since d571898 the attribute list is copied before remove/append: modelled (`getTokenAux`, buggy variant `stepBuggy`)
   ("okdmr/dmrlib/motorola/mbxml.py", "MBXMLDocument.get_token", "shared-mutation", "cls.get_known_tokens(): t.attributes =; t.attributes.append(); t.attributes.remove(); t.token_id =; t.value ="),
   -- header flag recomputed from the other fields on every call: modelled (`tmsFlag`, idempotent)
